@@ -38,7 +38,7 @@ C = 100.0
 def gen_cases(tier, seed):
     rng = random.Random(101010 + seed)
     cases = []
-    n = 70 if tier == "quick" else 3000
+    n = 70 if tier == "quick" else 9000
     for k in range(n):
         deg = rng.choice([1, 2, 3, 3, 3, 4, 5])
         nth = rng.randint(max(4, deg + 1), 24)
